@@ -73,7 +73,19 @@ def run_case(case, ctx):
     f = case["fraction"]
     snaps = (clone(S), clone(P), clone(R))
     events.SCHEDULE["sample"] = case["sample"]
-    obs = replcase.observe_replace(S, P, R, case["s"], replace_fraction=f, atol=atol, replace_all=case["replace_all"], return_num_matches=True)
+    # call forms: defaults left out where the case uses the default value; verbose output switched on now and then
+    ckw = dict(return_num_matches=True)
+    if not (f == 1.0 and case["s"] % 2):
+        ckw["replace_fraction"] = f
+    if not (atol == 0.05 and case["s"] % 4 < 2):
+        ckw["atol"] = atol
+    if case["replace_all"] or case["s"] % 3 == 0:
+        ckw["replace_all"] = case["replace_all"]
+    if case["s"] % 7 == 0:
+        ckw["verbose"] = True
+        st.count("replacements_with_verbose_output")
+    st.seen("call_form", "".join(k[0] for k in sorted(ckw)))
+    obs = replcase.observe_replace(S, P, R, case["s"], **ckw)
     w = {"case": {k: case[k] for k in ("cell", "pattern", "repl", "atol", "fraction", "replace_all", "sample")}, "n_atoms": len(S), "planted": built["planted"],
          "pattern_elements": pat["elements"], "replacement_elements": rep["elements"], "found": obs["found"], "selected": obs["selected"]}
     # inputs unmodified (also when the call raised)
